@@ -57,6 +57,7 @@ func lemma_C03_Notify(proto uint8, typ uint16, spi, data []byte) {
 	x := &Notification{ProtocolID: proto, NotifyMessageType: typ, SPI: spi, NotificationData: data}
 	b, err := x.Marshal()
 	verifAssert(err == nil, "C03/Notify/marshal-ok")
+	verifAssert(x.ProtocolID == proto && x.NotifyMessageType == typ && verifBytesEq(x.SPI, spi) && verifBytesEq(x.NotificationData, data), "C20/Notify/marshal-leaves-the-payload-unchanged")
 	verifAssert(len(b) == 4+len(spi)+len(data) && b[0] == proto && int(b[1]) == len(spi) && b[2] == byte(typ>>8) && b[3] == byte(typ), "C05/Notify/header")
 	verifAssert(verifBytesEq(b[4:4+len(spi)], spi) && verifBytesEq(b[4+len(spi):], data), "C05/Notify/spi-then-data")
 	y := new(Notification)
